@@ -144,8 +144,56 @@ def module_pure_helpers(tree):
     return out
 
 
+def ssa_toplevel(fnode):
+    """names all of whose bindings are plain assignments in the top-level statement list of the function get one name per binding
+    (`lits = list(lits)` followed by uses of lits  ==  `work = list(lits)` followed by uses of work).  Control flow at that level is a
+    straight line, so which binding a use sees is decided by position."""
+    f = copy.deepcopy(fnode)
+    params = {a.arg for a in f.args.posonlyargs + f.args.args + f.args.kwonlyargs}
+    if f.args.vararg:
+        params.add(f.args.vararg.arg)
+    if f.args.kwarg:
+        params.add(f.args.kwarg.arg)
+    top = {}
+    for st in f.body:
+        if isinstance(st, ast.Assign) and len(st.targets) == 1 and isinstance(st.targets[0], ast.Name):
+            top[st.targets[0].id] = top.get(st.targets[0].id, 0) + 1
+    total = {}
+    bad = set()
+    for n in ast.walk(f):
+        if isinstance(n, ast.Name) and isinstance(n.ctx, (ast.Store, ast.Del)):
+            total[n.id] = total.get(n.id, 0) + 1
+        if isinstance(n, (ast.Global, ast.Nonlocal)):
+            bad |= set(n.names)
+        if isinstance(n, (ast.FunctionDef, ast.AsyncFunctionDef, ast.Lambda, ast.ClassDef)) and n is not f:
+            for x in ast.walk(n):
+                if isinstance(x, ast.Name):
+                    bad.add(x.id)          # read or written by a nested definition: late binding, keep one name
+    cands = {n for n, c in top.items() if total.get(n, 0) == c and n not in bad and (c >= 2 or (n in params and c >= 1))}
+    if not cands:
+        return fnode
+    version = {}
+
+    class R(ast.NodeTransformer):
+        def visit_Name(self, n):
+            if n.id in cands and isinstance(n.ctx, ast.Load) and version.get(n.id, 0) > 0:
+                return ast.copy_location(ast.Name(id="%s__%d" % (n.id, version[n.id]), ctx=n.ctx), n)
+            return n
+    for i, st in enumerate(f.body):
+        if isinstance(st, ast.Assign) and len(st.targets) == 1 and isinstance(st.targets[0], ast.Name) and st.targets[0].id in cands:
+            st.value = R().visit(st.value)
+            nm = st.targets[0].id
+            version[nm] = version.get(nm, 0) + 1
+            st.targets[0] = ast.copy_location(ast.Name(id="%s__%d" % (nm, version[nm]), ctx=ast.Store()), st.targets[0])
+        else:
+            f.body[i] = R().visit(st)
+    ast.fix_missing_locations(f)
+    return f
+
+
 class Normaliser:
     def __init__(self, fnode, module_helpers=None):
+        fnode = ssa_toplevel(fnode)
         self.f = fnode
         self.counter = 0
         self.names = {}
@@ -1111,14 +1159,19 @@ class Normaliser:
                 lines += ["finally:"] + ["  " + x for x in self.block(s.finalbody, env, in_loop, False)]
             return lines
         if isinstance(s, ast.FunctionDef):
-            sub = Normaliser(s, self.module_helpers)
-            # free names of the closure that are renamed locals of the parent
+            # free names of the closure: temporaries of the parent are written out, renamed locals of the parent get their placeholder
+            own = set(_names_stored(s)) | {a.arg for a in ast.walk(s) if isinstance(a, ast.arg)}
+            s2 = copy.deepcopy(s)
+            for _ in range(4):
+                s2 = _Sub({k: v for k, v in env.items() if isinstance(v, ast.AST) and k not in own}).visit(s2)
+            s2 = _Sub({k: v for k, v in env.items() if isinstance(v, str) and k not in own}).visit(s2)
+            ast.fix_missing_locations(s2)
+            sub = Normaliser(s2, self.module_helpers)
+            sub.expr_helpers.update({k: v for k, v in self.expr_helpers.items() if k not in own})
             inner = sub.text()
-            ren = {k: v for k, v in env.items() if isinstance(v, str)}
             env[s.name] = "_L_%s_" % s.name
             head = "def %s(%s):" % (env[s.name], ", ".join(a.arg for a in s.args.args))
             body = inner.split("\n") if inner else []
-            body = [re.sub(r"\b(%s)\b" % "|".join(map(re.escape, ren)), lambda m: ren[m.group(1)], x) if ren else x for x in body]
             return [head] + ["  " + x for x in body]
         if isinstance(s, ast.ClassDef):
             return ["class " + _src(s)]
@@ -1129,37 +1182,35 @@ class Normaliser:
         e1 = dict(env)
         # for i, x in enumerate(S, start=k)  ==  for i in range(k, len(S) + k): x = S[i - k]
         if isinstance(it, ast.Call) and _src(it.func) == "enumerate" and it.args and isinstance(target, ast.Tuple) and len(target.elts) == 2 \
-                and isinstance(target.elts[0], ast.Name) and isinstance(it.args[0], ast.Name) and \
-                self.bound_once(it.args[0].id) and not self._resized(it.args[0].id) and not isinstance(target.elts[1], ast.Name):
-            # for i, (c, l) in enumerate(S)   ==   for i in range(len(S)): (c, l) = S[i]
-            start = 0
+                and isinstance(target.elts[0], ast.Name) and isinstance(it.args[0], ast.Name) and self.bound_once(it.args[0].id) and \
+                not self._resized(it.args[0].id):
+            start = None
             for k in it.keywords:
-                if k.arg == "start" and isinstance(k.value, ast.Constant) and isinstance(k.value.value, int):
-                    start = k.value.value
+                if k.arg == "start":
+                    start = k.value
+            if len(it.args) == 2:
+                start = it.args[1]
+            ok = start is None or (self.pure(start) and all(self.bound_once(n.id) and n.id not in self.mutated
+                                                            for n in ast.walk(start) if isinstance(n, ast.Name) and n.id != "self"))
+            zero = start is None or (isinstance(start, ast.Constant) and start.value == 0)
             seq, i = it.args[0].id, target.elts[0].id
-            rng = "range(%d, len(%s) + %d)" % (start, seq, start) if start else "range(len(%s))" % seq
-            first = ast.Assign(targets=[target.elts[1]], value=ast.parse("%s[%s - %d]" % (seq, i, start) if start else "%s[%s]" % (seq, i), mode="eval").body)
-            s2 = ast.For(target=ast.Name(id=i, ctx=ast.Store()), iter=ast.parse(rng, mode="eval").body, body=[first] + list(s.body), orelse=s.orelse)
-            ast.copy_location(s2, s)
-            ast.copy_location(first, s)
-            ast.fix_missing_locations(s2)
-            return self._for(s2, env, at_end)
-        if isinstance(it, ast.Call) and _src(it.func) == "enumerate" and it.args and isinstance(target, ast.Tuple) and len(target.elts) == 2 \
-                and all(isinstance(t, ast.Name) for t in target.elts) and isinstance(it.args[0], ast.Name) and \
-                self.bound_once(it.args[0].id) and it.args[0].id not in self.direct_mut and \
-                self.loop_bound.get(target.elts[1].id, 0) == self.assign_count.get(target.elts[1].id, 0):
-            start = 0
-            for k in it.keywords:
-                if k.arg == "start" and isinstance(k.value, ast.Constant) and isinstance(k.value.value, int):
-                    start = k.value.value
-            if len(it.args) == 2 and isinstance(it.args[1], ast.Constant):
-                start = it.args[1].value
-            seq = it.args[0].id
-            i, x = target.elts[0].id, target.elts[1].id
-            rng = "range(%d, len(%s) + %d)" % (start, seq, start) if start else "range(len(%s))" % seq
-            it = ast.parse(rng, mode="eval").body
-            target = ast.Name(id=i, ctx=ast.Store())
-            e1[x] = ast.parse("%s[%s - %d]" % (seq, i, start) if start else "%s[%s]" % (seq, i), mode="eval").body
+            st_txt = "0" if zero else "(%s)" % _src(start)
+            rng = "range(len(%s))" % seq if zero else "range(%s, len(%s) + %s)" % (st_txt, seq, st_txt)
+            idx = "%s[%s]" % (seq, i) if zero else "%s[%s - %s]" % (seq, i, st_txt)
+            second = target.elts[1]
+            if ok and not isinstance(second, ast.Name):
+                # for i, (c, l) in enumerate(S)   ==   for i in range(len(S)): (c, l) = S[i]
+                first = ast.Assign(targets=[second], value=ast.parse(idx, mode="eval").body)
+                s2 = ast.For(target=ast.Name(id=i, ctx=ast.Store()), iter=ast.parse(rng, mode="eval").body, body=[first] + list(s.body), orelse=s.orelse)
+                ast.copy_location(s2, s)
+                ast.copy_location(first, s)
+                ast.fix_missing_locations(s2)
+                return self._for(s2, env, at_end)
+            if ok and isinstance(second, ast.Name) and it.args[0].id not in self.direct_mut and \
+                    self.loop_bound.get(second.id, 0) == self.assign_count.get(second.id, 0):
+                it = ast.parse(rng, mode="eval").body
+                target = ast.Name(id=i, ctx=ast.Store())
+                e1[second.id] = ast.parse(idx, mode="eval").body
         # for k, v in X.items(): ..   ==   for k in X: .. with v = X[k]        (X a name / attribute path that is not rebound)
         if isinstance(it, ast.Call) and isinstance(it.func, ast.Attribute) and it.func.attr == "items" and not it.args and \
                 isinstance(target, ast.Tuple) and len(target.elts) == 2 and all(isinstance(t, ast.Name) for t in target.elts) and \
